@@ -179,6 +179,19 @@ let handle (x : Sexp.t) : string =
   else begin
     let exprs = List.map expr_of_sexp (Sexp.field "exprs" fs) in
     let shared = Sexp.field "shared" fs in
+    (* kernel cross-check: cache-free results per member; the memoising driver model's results and final cache on the recorded
+       order (only when the harness dumped a cache, i.e. when the handler itself runs that model) *)
+    Registry.set_model_lazy (fun () ->
+        let plain = List.map (fun e -> show_sres (simp_default e)) exprs in
+        let hist =
+          if cache_entries "cache-sparse" fs = None then "(nohist)"
+          else begin
+            let order = List.map (fun a -> int_of_string (Sexp.atom a)) (Sexp.field "order" fs) in
+            let (rs, mc) = model_history exprs order in
+            Printf.sprintf "(hist (%s) (%s))" (String.concat " " (List.map (fun (_, r) -> show_sres r) rs))
+              (String.concat " " (List.map (fun (k, v) -> Printf.sprintf "(%s %s)" (Sexp.to_string (sexp_of_expr k)) (Sexp.to_string (sexp_of_expr v))) mc))
+          end in
+        Printf.sprintf "(c13 (%s) %s)" (String.concat " " plain) hist);
     match shared with
     | [Sexp.List [Sexp.Atom "panic"]] ->
         let loc = match Sexp.field_opt "panicloc" fs with Some [l] -> Sexp.atom l | _ -> "?" in
